@@ -130,6 +130,9 @@ func (e *Engine) opaque(t types.Type) bool {
 		return false
 	}
 	if n, ok := t.(*types.Named); ok {
+		if transparentExternal[types.TypeString(t, nil)] {
+			return false
+		}
 		return !e.isRepoPkg(n.Obj().Pkg())
 	}
 	if a, ok := t.(*types.Alias); ok {
@@ -930,3 +933,6 @@ func intLeaves(v *V) []string {
 	}
 	return leaves(v)
 }
+
+// transparentExternal: library struct types whose exported fields the code under contract reads directly.
+var transparentExternal = map[string]bool{"container/list.Element": true}
